@@ -114,6 +114,20 @@ def run(ctx):
             continue
         if bad_rep or unknown:
             continue
+        # the same through the two functions themselves: expand_packages, then expand_time_conditions, on the parsed tree
+        if pre[0] == "ok" and (rp or rt):
+            from ahbicht.expressions.expression_resolver import expand_packages, expand_time_conditions
+
+            def direct():
+                t = c01.parse_impl(s)[1]
+                if rp:
+                    t = asyncio.run(expand_packages(t))
+                return expand_time_conditions(t) if rt else t
+
+            dres = evalimpl.outcome(direct)
+            if dres[0] != res[0] or dres[1] != res[1]:
+                ctx.fail("direct|" + key, dict(desc, entry="expand_packages / expand_time_conditions"), f"as the resolver: {res[1]}"[:300], f"{dres[1]}"[:300],
+                         "oracle: expand_packages followed by expand_time_conditions gives the resolver's tree")
         want = c01.parse_impl(subst_text(s, tab, rp, rt))
         if want[0] != res[0] or (want[0] == "ok" and want[1] != res[1]) or (want[0] == "exn" and want[1] != res[1]):
             ctx.fail("subst|" + key, dict(desc, substituted=subst_text(s, tab, rp, rt)), f"{want[1] if want[0] == 'exn' else want[1]}"[:300],
